@@ -18,11 +18,14 @@
 (*                                                                                      *)
 (* Text is a sequence of code points.  Lex(text) = [t |-> tokens, e |-> first error].   *)
 (* A token is [k |-> kind, s |-> code points]; kinds: "tag" (s without '_'), "val",     *)
-(* "data" (s = block name), "save", "loop", "stop", "global".  CR is not modelled       *)
-(* (DESIGN 3.4): any code point outside {HT, LF, 32..126} is an error.                  *)
+(* "data" (s = block name), "save", "loop", "stop", "global".  CR is not modelled as a  *)
+(* character of values (DESIGN 3.4): any code point outside {HT, LF, 32..126} is an      *)
+(* error - with one exception: CIF 1.1 counts a bare CR as a line terminator, so a CR    *)
+(* inside a comment ENDS the comment and whatever follows it on the line is read as data *)
+(* (this is how comment text with CR or CR LF line ends can leak into the data).         *)
 EXTENDS Integers, Sequences, FiniteSets, SequencesExt
 
-HT == 9    LF == 10   SP == 32   DQ == 34   HASH == 35   DOLLAR == 36   SQ == 39
+HT == 9    LF == 10   CR == 13   SP == 32   DQ == 34   HASH == 35   DOLLAR == 36   SQ == 39
 SEMI == 59 LBR == 91  RBR == 93  US == 95   BSL == 92
 
 IsBlank(c)    == c \in {SP, HT, LF}
@@ -122,6 +125,7 @@ StepLegal(st, c) ==
 
 Step(st, c) ==
     IF IsLegal(c) THEN StepLegal(st, c)
+    ELSE IF c = CR /\ st.m = "com" THEN [st EXCEPT !.m = "ws", !.bol = TRUE]   \* end of line, end of comment
     ELSE IF c > 126 THEN Err(st, "non_ascii_character")
     ELSE Err(st, "control_character")
 
@@ -181,6 +185,14 @@ CommentLines(c) ==
          IF lfs = {} THEN <<HASH, SP>> \o c \o <<LF>>
          ELSE LET i == CHOOSE k \in lfs : \A j \in lfs : k <= j
               IN <<HASH, SP>> \o SubSeq(c, 1, i - 1) \o <<LF>> \o CommentLines(SubSeq(c, i + 1, Len(c)))
+
+(* the same for comment text whose lines end in CR LF or in a bare CR *)
+RECURSIVE NormalizeBreaks(_)
+NormalizeBreaks(c) ==
+    IF c = <<>> THEN <<>>
+    ELSE IF c[1] = CR THEN <<LF>> \o NormalizeBreaks(IF Len(c) >= 2 /\ c[2] = LF THEN SubSeq(c, 3, Len(c)) ELSE Tail(c))
+    ELSE <<c[1]>> \o NormalizeBreaks(Tail(c))
+CommentLinesAnyBreak(c) == CommentLines(NormalizeBreaks(c))
 
 TagT == <<US, 116>>   \* _t
 TagU == <<US, 117>>   \* _u
